@@ -40,7 +40,7 @@ def chunks_of(keys, rng=None, typeahead=0.0):
     out = []
     for k in keys:
         b = key_bytes(k)
-        if out and rng is not None and rng.random() < typeahead and out[-1][1] not in ("Esc", "Enter") \
+        if out and rng is not None and rng.random() < typeahead and out[-1][1] not in ("Esc", "Enter", "C-j", "C-m") \
                 and not out[-1][0].endswith(ESC):
             out[-1] = (out[-1][0] + b, k)
         else:
